@@ -18,7 +18,15 @@ def plan(tier):
     EM = dict(kinds=("K",), starve="eager:parent:manager")
     pl += [(PG.reusable_resize(2, 3, None), 1, EM), (PG.reusable_resize(1, 3, 0.05), 1, EM),
            (PG.reusable_resize(3, 1, None), 1, EM)]
+    # idle timeouts of several workers inside the resize itself
+    # policy: every idle timer expires inside _resize (timeout ~ 0 relative to the call)
+    Z = dict(kinds=("P",), zero_when="_resize", p_scope="worker")
+    pl += [(PG.reusable_resize(2, 1, 0.05), 1, Z), (PG.reusable_resize(3, 2, 0.05), 1, Z),
+           (PG.reusable_resize(3, 1, 0.05), 1, Z), (PG.reusable_resize(2, 3, 0.05), 1, Z)]
     if tier == "thorough":
+        TR = dict(kinds=("T",), t_when="_resize", t_scope="worker", t_cur="parent:main")
+        pl += [(PG.reusable_resize(2, 1, 0.05), 2, TR),
+               (PG.reusable_resize(3, 2, 0.05), 2, Z)]
         pl += [(PG.reusable_resize(2, 3, 0.05), 2, dict(kinds=("T", "K"))),
                (PG.reusable_resize(2, 1, None), 2, dict(kinds=("P", "K"))),
                (PG.resize_inflight(2, 1, None, 1), 2, dict(kinds=("P",)))]
